@@ -178,6 +178,51 @@ func runC17(c *core.Ctx) {
 			c17Format(cs, p, mon.TypeName(p)+fmt.Sprintf(" (list of %d)", n))
 		}
 	})
+	// (2b') lists whose elements all come from a small pool of patterned words (all zeros, all ones,
+	// alternating bits — the bitmaps with the most runs —, single bits) at related positions
+	// (contiguous, equal, distant, wrapping): a formatter that summarises runs or ranges sizes its
+	// scratch space for the typical element (after seed C17m)
+	c.Section("patterned-lists", c.N(30000, 3000000), func(cs *core.Case) {
+		r := cs.R
+		pool := []uint16{0xAAAA, 0x5555, 0xAAAA, 0x5555, 0xFFFF, 0x0000, 0x8000, 0x0001, 0xA5A5, 0x3333, 0xCCCC, 0x7FFE, 0xAAAB, 0xD555, r.U16()}
+		if r.Bool() {
+			pool = pool[:2+r.Intn(3)] // only the alternating ones
+		}
+		n := 1 + r.Intn(12)
+		pid := r.B16()
+		step := func() uint16 { return uint16(r.Pick(17, 17, 16, 18, 0, 1, 100, 32768, 65535, 65519, int(r.U16()))) }
+		nack := &rtcp.TransportLayerNack{SenderSSRC: r.B32(), MediaSSRC: r.B32()}
+		sli := &rtcp.SliceLossIndication{SenderSSRC: r.B32(), MediaSSRC: r.B32()}
+		rle := &rtcp.LossRLEReportBlock{SSRC: r.B32(), BeginSeq: pid}
+		dup := &rtcp.DuplicateRLEReportBlock{SSRC: r.B32(), BeginSeq: pid}
+		twcc := &rtcp.TransportLayerCC{Header: rtcp.Header{Count: 15, Type: 205}, BaseSequenceNumber: pid, PacketStatusCount: uint16(14 * n)}
+		for i := 0; i < n; i++ {
+			w := pool[r.Intn(len(pool))]
+			nack.Nacks = append(nack.Nacks, rtcp.NackPair{PacketID: pid, LostPackets: rtcp.PacketBitmap(w)})
+			sli.SLI = append(sli.SLI, rtcp.SLIEntry{First: pid & 0x1FFF, Number: w & 0x1FFF, Picture: uint8(w & 0x3F)})
+			rle.Chunks = append(rle.Chunks, rtcp.Chunk(w))
+			dup.Chunks = append(dup.Chunks, rtcp.Chunk(w^0x8000))
+			sv := &rtcp.StatusVectorChunk{Type: 1, SymbolSize: uint16(w >> 14 & 1)}
+			for k := 0; k < 14>>sv.SymbolSize; k++ {
+				sv.SymbolList = append(sv.SymbolList, w>>(13-uint(k)*(1+uint(sv.SymbolSize)))&(1<<(1+sv.SymbolSize)-1)&3)
+			}
+			twcc.PacketChunks = append(twcc.PacketChunks, sv)
+			pid += step()
+		}
+		rle.EndSeq, dup.EndSeq = pid, pid
+		for _, p := range []rtcp.Packet{nack, sli, &rtcp.ExtendedReport{Reports: []rtcp.ReportBlock{rle, dup}}, twcc} {
+			cs.Distinct(valueDigest(mon.TypeName(p), p))
+			cs.Count("patterned/" + mon.TypeName(p))
+			c17Format(cs, p, mon.TypeName(p)+" (patterned list)")
+		}
+		// and as decoded from their encodings
+		if b, err := nack.Marshal(); err == nil {
+			var d rtcp.TransportLayerNack
+			if d.Unmarshal(b) == nil {
+				c17Format(cs, &d, "TransportLayerNack (patterned list, decoded)")
+			}
+		}
+	})
 	// (2c) transport-cc feedback whose chunks describe about 2^16 packets (65535, exactly 65536, a
 	// little more, twice that), hand-built and decoded: a formatter that summarises the chunks
 	// meets every total a 16-bit conversion turns into 0 or 1
